@@ -1,7 +1,3 @@
 SPECIFICATION TSpec
-CONSTANTS
-  MaxStreamId = 255
-  KnownF7 = TRUE
-INVARIANT ETypeOK
 POSTCONDITION TraceAccepted
 CHECK_DEADLOCK FALSE
